@@ -121,6 +121,16 @@ Theorem C12_idle_pair_stays_up : forall e P k cli srv t0 hs,
 Proof. exact idle_pair_stays_up. Qed.
 Print Assumptions C12_idle_pair_stays_up.
 
+(*    (1') quantitatively: neither liveness clock is ever older than the peer's keep-alive period + one
+      tick + the network delay (which is why neither time-out rule fires); *)
+Theorem C12_idle_pair_clocks_fresh : forall e P k cli srv t0 hs,
+  established k t0 cli srv -> params_ok P cli srv -> tvalid e P (tnet0 cli srv t0) hs ->
+  let n := trun e P (tnet0 cli srv t0) hs in
+  t_clk n - c_last_recv (t_srv n) <= kmax cli + tp_tau P + tp_d P /\
+  t_clk n - c_last_recv (t_cli n) <= kmax srv + tp_tau P + tp_d P.
+Proof. exact idle_pair_clocks_fresh. Qed.
+Print Assumptions C12_idle_pair_clocks_fresh.
+
 (*    (2) each side has emitted sealed KEEP_ALIVEs only, the first at most max(K, si) + tau after
       base_time (its last packet before the start, or one keep-alive period before the start if that
       is later), consecutive ones at most max(K, si) + tau apart, the newest at most that old. *)
